@@ -167,7 +167,9 @@ def parse_tags(text):
     # assert isinstance(text, unicode)
     if not text:
         return []
-    return Parser(variant="tags").parse_tags(text)
+    parser = Parser(variant="tags")
+    parser.line = 1     # -- ENSURE: ParserError refers to a line inside the text.
+    return parser.parse_tags(text)
 
 
 # -----------------------------------------------------------------------------
@@ -332,6 +334,9 @@ class Parser(object):
         self.tags = []
 
     def _build_rule_statement(self, keyword, line):
+        if not self.feature:
+            raise ParserError(u"Rule may not occur before Feature",
+                              self.line, self.filename, line)
         name = line[len(keyword) + 1:].strip()
         rule = model.Rule(self.filename, self.line, keyword, name,
                           tags=self.tags)
@@ -351,6 +356,9 @@ class Parser(object):
                 # -- HINT: Rule may have default background w/o steps.
                 msg = u"Second Background (can have only one)"
                 raise ParserError(msg, self.line, self.filename, line)
+        if not self.scenario_container:
+            raise ParserError(u"Background may not occur before Feature",
+                              self.line, self.filename, line)
         name = line[len(keyword) + 1:].strip()
         background = model.Background(self.filename, self.line, keyword, name)
         self.scenario_container.add_background(background)
@@ -374,7 +382,8 @@ class Parser(object):
         template = model.ScenarioOutline(self.filename, self.line, keyword, name,
                                          tags=self.tags)
         self.statement = template
-        self.scenario_container.add_scenario(template)
+        if self.scenario_container:
+            self.scenario_container.add_scenario(template)
 
         # -- RESET STATE:
         self.tags = []
@@ -471,6 +480,9 @@ class Parser(object):
             line = line.strip()[1:].strip()
             if line.lstrip().lower().startswith("language:"):
                 language = line[9:].strip()
+                if language not in i18n.languages:
+                    msg = u"Unknown language: %s" % language
+                    raise ParserError(msg, self.line, self.filename, line)
                 self.language = language
                 self.keywords = i18n.languages[language]
             return
@@ -617,6 +629,9 @@ class Parser(object):
             self.state = State.BACKGROUND
             return True
 
+        if self.rule is None:
+            # -- CASE: parse_rule() without Rule statement.
+            return False
         self.rule.description.append(line)
         return True
 
@@ -634,6 +649,12 @@ class Parser(object):
         """
         self.last_step_type = None
         line = line.strip()
+        if self.statement is None and not (
+                line.startswith("@") or
+                self.match_keyword("scenario", line) or
+                self.match_keyword("scenario_outline", line)):
+            # -- CASE: parse_scenario()/parse_rule() without Scenario statement.
+            return False
         step = self.parse_step(line)
         if step:
             # -- FIRST STEP DETECTED: End collection of description-part.
@@ -770,7 +791,7 @@ class Parser(object):
         if not re.match(r"^(|.+)\|$", line):
             logger = logging.getLogger("behave")
             logger.warning(u"Malformed table row at %s: line %i",
-                           self.feature.filename, self.line)
+                           self.filename, self.line)
 
         # -- SUPPORT: Escaped-pipe(s) in Gherkin cell values.
         #    Search for pipe(s) that are not preceded with an escape char.
@@ -838,7 +859,9 @@ class Parser(object):
         :param line:   Line with one/more tags to process.
         :raise ParserError: If syntax error is detected.
         """
-        assert line.startswith("@")
+        if not line.startswith("@"):
+            message = u"tag: %s (line: %s)" % (line.split()[0] if line.split() else line, line)
+            raise ParserError(message, self.line, self.filename)
         tags = []
         for word in line.split():
             if word.startswith("@"):
